@@ -466,6 +466,42 @@ theorem step_inv (cfg : Cfg) (hr : cfg.recheck = true) (ha : cfg.atomicLock = tr
       exact inv_goto hI (by rw [hpc]; rfl) (by rw [hpc]; rfl) trivial
     | false =>
     simp only [Bool.false_eq_true, if_false]
+    cases hcr : cfg.crashCall t with
+    | true =>
+      simp only [if_true]
+      cases hk : cfg.kind t with
+      | write p =>
+        simp only
+        refine ⟨hI.ids, hI.free, lockinv_frame hL rfl rfl rfl rfl (by rw [hpc]; rfl) (by rw [hpc]; rfl),
+          ?_, ?_, ?_⟩
+        · intro t'
+          by_cases h : t' = t
+          · subst h; simp [PCok]
+          · simp only [goto_pc_other _ _ h]
+            exact PCok_mono (s := s) rfl rfl (fun _ hc => List.mem_cons_of_mem _ hc) (hI.pcs t')
+        · intro c hc
+          simp only [goto_calls, List.mem_cons] at hc
+          rcases hc with rfl | hc
+          · rfl
+          · exact hI.calls c hc
+        · simpa [List.countP_cons, Call.isCreate] using hI.count
+      | fin =>
+        simp only
+        refine ⟨hI.ids, hI.free, lockinv_frame hL rfl rfl rfl rfl (by rw [hpc]; rfl) (by rw [hpc]; rfl),
+          ?_, ?_, ?_⟩
+        · intro t'
+          by_cases h : t' = t
+          · subst h; simp [PCok]
+          · simp only [goto_pc_other _ _ h]
+            exact PCok_mono (s := s) rfl rfl (fun _ hc => List.mem_cons_of_mem _ hc) (hI.pcs t')
+        · intro c hc
+          simp only [goto_calls, List.mem_cons] at hc
+          rcases hc with rfl | hc
+          · rfl
+          · exact hI.calls c hc
+        · simpa [List.countP_cons, Call.isCreate] using hI.count
+    | false =>
+    simp only [Bool.false_eq_true, if_false]
     cases hk : cfg.kind t with
     | write p =>
       simp only
@@ -552,7 +588,7 @@ theorem runFrom_inv (cfg : Cfg) (hr : cfg.recheck = true) (ha : cfg.atomicLock =
 theorem step_pc_other (cfg : Cfg) (s : State) {t t' : Nat} (h : t' ≠ t) :
     (step cfg s t).pc t' = s.pc t' := by
   unfold step
-  split <;> (try split) <;> (try split) <;> simp [h, State.setMy, State.setHolder]
+  split <;> (try split) <;> (try split) <;> (try split) <;> simp [h, State.setMy, State.setHolder]
 
 theorem runFrom_pc_unscheduled (cfg : Cfg) (sched : List Nat) (t : Nat) (ht : t ∉ sched) :
     ∀ s, (runFrom cfg s sched).pc t = s.pc t := by
@@ -629,7 +665,7 @@ theorem step_decreases (cfg : Cfg) (s : State) (t : Nat) (h : enabled s t = true
   | releaseFault => simp [remaining]
   | useAssert => simp only []; split <;> simp [remaining]
   | readId => simp [remaining]
-  | call _ => simp only []; split <;> (try split) <;> simp [remaining]
+  | call _ => simp only []; split <;> (try split) <;> (try split) <;> simp [remaining]
   | askClient2 => simp [remaining]
   | done => rw [hp] at h; simp at h
   | failed => rw [hp] at h; simp at h
@@ -1049,6 +1085,42 @@ theorem step_inv (cfg : Cfg) (s : State) (t : Nat) (hI : Inv cfg s)
       exact inv_goto hI (by rw [hpc]; rfl) trivial
     | false =>
     simp only [Bool.false_eq_true, if_false]
+    cases hcr : cfg.crashCall t with
+    | true =>
+      simp only [if_true]
+      cases hk : cfg.kind t with
+      | write p =>
+        simp only
+        refine inv_frame (t := t) hI (fun t' h => by simp [h])
+          ⟨hids.creates_le, hids.wid_range, hids.wid_created, hids.var_range, hids.var_created⟩ hI.free ?_
+          (fun _ _ => Iff.rfl) ?_ ?_ ?_ ?_
+        · simpa [inCS] using hnl
+        · simp [PCok]
+        · exact fun t' _ h => PCok_mono (s := s) rfl (fun _ h => h) (fun _ => rfl)
+            (fun _ h => List.mem_cons_of_mem _ h) h
+        · intro c hc
+          simp only [goto_calls, List.mem_cons] at hc
+          rcases hc with rfl | hc
+          · rfl
+          · exact hI.calls c hc
+        · simpa [List.countP_cons, Call.isCreate] using hI.count
+      | fin =>
+        simp only
+        refine inv_frame (t := t) hI (fun t' h => by simp [h])
+          ⟨hids.creates_le, hids.wid_range, hids.wid_created, hids.var_range, hids.var_created⟩ hI.free ?_
+          (fun _ _ => Iff.rfl) ?_ ?_ ?_ ?_
+        · simpa [inCS] using hnl
+        · simp [PCok]
+        · exact fun t' _ h => PCok_mono (s := s) rfl (fun _ h => h) (fun _ => rfl)
+            (fun _ h => List.mem_cons_of_mem _ h) h
+        · intro c hc
+          simp only [goto_calls, List.mem_cons] at hc
+          rcases hc with rfl | hc
+          · rfl
+          · exact hI.calls c hc
+        · simpa [List.countP_cons, Call.isCreate] using hI.count
+    | false =>
+    simp only [Bool.false_eq_true, if_false]
     cases hk : cfg.kind t with
     | write p =>
       simp only
@@ -1115,7 +1187,7 @@ theorem step_deleted_mono (cfg : Cfg) (s : State) (t : Nat) (h : (step cfg s t).
     s.deleted = false := by
   revert h
   unfold step
-  cases hpc : s.pc t <;> simp only [] <;> (try split) <;> (try split) <;> simp [State.goto, State.setWid]
+  cases hpc : s.pc t <;> simp only [] <;> (try split) <;> (try split) <;> (try split) <;> simp [State.goto, State.setWid]
 
 theorem runFrom_deleted_mono (cfg : Cfg) (sched : List Nat) :
     ∀ s, (runFrom cfg s sched).deleted = false → s.deleted = false := by
@@ -1137,7 +1209,7 @@ theorem step_pc_other (cfg : Cfg) (s : State) {t t' : Nat} (h : t' ≠ t) :
     (step cfg s t).pc t' = s.pc t' := by
   unfold step
   simp only
-  split <;> (try split) <;> (try split) <;> simp [h]
+  split <;> (try split) <;> (try split) <;> (try split) <;> simp [h]
 
 theorem runFrom_pc_unscheduled (cfg : Cfg) (sched : List Nat) (t : Nat) (ht : t ∉ sched) :
     ∀ s, (runFrom cfg s sched).pc t = s.pc t := by
@@ -1217,7 +1289,7 @@ theorem step_decreases (cfg : Cfg) (s : State) (t : Nat) (h : enabled s t = true
   | endAssert => simp only []; split <;> simp [remaining]
   | useAssert => simp only []; split <;> simp [remaining]
   | readId => simp [remaining]
-  | call _ => simp only []; split <;> (try split) <;> simp [remaining]
+  | call _ => simp only []; split <;> (try split) <;> (try split) <;> simp [remaining]
   | askClient2 => simp [remaining]
   | delVar => simp [remaining]
   | done => rw [hp] at h; simp at h
@@ -1272,9 +1344,13 @@ theorem step_nofin (cfg : Cfg) (hk : ∀ t, cfg.kind t ≠ .fin) (s : State) (t 
     simp only []
     split
     · exact nofin_goto h (by simp) (by simp)
-    · cases hkt : cfg.kind t with
-      | write p => exact nofin_goto (s := { s with calls := .upload p id :: s.calls }) h (by simp) (by simp)
-      | fin => exact absurd hkt (hk t)
+    · split
+      · cases hkt : cfg.kind t with
+        | write p => exact nofin_goto (s := { s with calls := .upload p id :: s.calls }) h (by simp) (by simp)
+        | fin => exact absurd hkt (hk t)
+      · cases hkt : cfg.kind t with
+        | write p => exact nofin_goto (s := { s with calls := .upload p id :: s.calls }) h (by simp) (by simp)
+        | fin => exact absurd hkt (hk t)
   | askClient2 => rw [hpc] at hpt; exact absurd rfl hpt.1
   | delVar => rw [hpc] at hpt; exact absurd rfl hpt.2
   | releaseFault => exact nofin_goto (s := { s with lock := none }) h (by simp) (by simp)
@@ -1296,7 +1372,7 @@ namespace DistN
 /-- the `Dist` configuration seen when every worker computes the same names -/
 def toDist (cfg : Cfg) : Dist.Cfg :=
   { kind := cfg.kind, worker := cfg.worker, faultCreate := cfg.faultCreate, faultCall := cfg.faultCall,
-    spurGet1 := cfg.spurGet1 }
+    spurGet1 := cfg.spurGet1, crashCall := cfg.crashCall }
 
 set_option linter.unusedSimpArgs false in
 theorem proj_step (cfg : Cfg) (L V : Nat) (hL : ∀ w, cfg.lockName w = L) (hV : ∀ w, cfg.varName w = V)
@@ -1312,7 +1388,7 @@ theorem proj_step (cfg : Cfg) (L V : Nat) (hL : ∀ w, cfg.lockName w = L) (hV :
     | skip
   all_goals
     simp [proj, State.goto, State.setWid, State.setVar, State.setLock, Dist.State.goto, Dist.State.setWid]
-  all_goals (try split) <;> (try split) <;> simp_all
+  all_goals (try split) <;> (try split) <;> (try split) <;> simp_all
 
 theorem proj_runFrom (cfg : Cfg) (L V : Nat) (hL : ∀ w, cfg.lockName w = L) (hV : ∀ w, cfg.varName w = V)
     (sched : List Nat) :
